@@ -40,7 +40,13 @@ CONSTANTS Source,      \* "enum" | "file"
 
 AllKinds == {"module", "class", "function", "method", "attribute"}
 AllFmts  == {"epytext", "restructuredtext", "google", "numpy"}
-Probs    == {"xref", "markup", "unkfield", "param", "tfield", "vfield", "consbad", "ambig"}
+Probs    == {"xref", "markup", "unkfield", "param", "tfield", "vfield", "consbad", "ambig", "btype", "btype2"}
+\* btype / btype2: a MALFORMED TYPE (unbalanced parenthesis, "T(T") in the Returns section of a google / numpy docstring; napoleon
+\* tokenises the type of every entry (GoogleDocstring._convert_type -> TypeDocstring) and hands each warning on with the line of
+\* the entry.  btype2: a second entry (numpy: second returned value; google: the Yields section) carries THE SAME SPELLING of the
+\* type: two problems, two reports
+BType(l) == l.prob \in {"btype", "btype2"}
+Rep(l)   == IF l.prob = "btype2" THEN 2 ELSE IF l.prob = "btype" THEN 1 ELSE 0
 Poss     == {"p1", "p2l2", "item", "field", "own"}
 
 \* ------------------------------------------------------------------ layouts
@@ -52,6 +58,7 @@ WellFormed(l) ==
     \* messages, all about the same place in the same docstring
     /\ (l.prob = "ambig" => ~l.raw /\ l.k = 0 /\ l.blanks = 0 /\ l.indent = 0 /\ ~l.longws /\ l.lead = "none" /\ l.sep = "none" /\ ~l.tight)
     /\ (l.prob = "param" => l.kind \in {"function", "method", "class"})
+    /\ (BType(l) => l.fmt \in {"google", "numpy"} /\ l.kind \in {"function", "method"} /\ ~l.raw /\ ~l.longws /\ l.sep = "none")
     \* typed: the Args / Parameters section documents three parameters with their types (napoleon writes a :type: line for each)
     /\ (l.typed => l.fmt \in {"google", "numpy"} /\ l.prob = "param" /\ ~l.raw /\ l.k = 0)
     \* longws: the (only) leading blank line carries MORE white space than the docstring's indentation
@@ -135,6 +142,8 @@ Mark0(l) ==
             [] l.prob = "vfield" -> [first |-> 11, at |-> 11]     \* :note: (9-10)  ivar y (11): the link is in its body
             [] l.cons -> [first |-> 14, at |-> 14]                \* :note: (9-10)  :Parameters:  a  the arg  nosuch  text
             [] l.fmt \in {"epytext", "restructuredtext"} -> [first |-> 11, at |-> 11]
+            [] l.fmt = "google" /\ BType(l) -> [first |-> 17, at |-> 17]     \* Note(9-11) blank Args: a blank Returns: entry [blank Yields: entry]
+            [] l.fmt = "numpy"  /\ BType(l) -> [first |-> 21, at |-> 21]     \* Note(9-12) blank Parameters ---- a desc blank Returns ---- entry desc [entry desc]
             [] l.fmt \in {"google", "numpy"} /\ l.prob = "unkfield" -> [first |-> 9, at |-> 9]  \* ':unknownfield: text' + blank before Note
             [] l.fmt = "google" /\ l.prob = "param" /\ ~l.typed -> [first |-> 15, at |-> 15]   \* Note(9-11) blank Args: a nosuch
             [] l.fmt = "numpy"  /\ l.prob = "param" /\ ~l.typed -> [first |-> 18, at |-> 18]   \* Note(9-12) blank Parameters ---- a desc nosuch
@@ -150,6 +159,8 @@ DocLen0(l) ==
     [] l.prob = "vfield" -> 12
     [] l.prob = "consbad" -> 12
     [] l.fmt \in {"epytext", "restructuredtext"} -> IF l.pos = "own" THEN 12 ELSE 11
+    [] l.fmt = "google" /\ BType(l) -> 18 + 3 * (Rep(l) - 1)
+    [] l.fmt = "numpy"  /\ BType(l) -> 23 + 2 * (Rep(l) - 1)
     [] l.fmt = "google" -> shift + 12 + (IF l.typed THEN 6 ELSE IF HasArgs(l) THEN 3 + (IF l.prob = "param" THEN 1 ELSE 0) ELSE 0)
     [] l.fmt = "numpy"  -> shift + 13 + (IF l.typed THEN 11 ELSE IF HasArgs(l) THEN 5 + (IF l.prob = "param" THEN 2 ELSE 0) ELSE 0)
 DocLen(l) == LeadLen(l) + DocLen0(l)
@@ -207,6 +218,13 @@ Conv(l) == CASE l.fmt = "google" /\ l.pos = "field" -> [first |-> 11, at |-> 12]
              \* typed: every "x (T): d" / "x : T / d" becomes ":param x: d" + ":type x: T": the rewritten text grows past the original
              [] l.fmt = "google" /\ l.typed -> [first |-> 20, at |-> 20]
              [] l.fmt = "numpy"  /\ l.typed -> [first |-> 20, at |-> 20]
+             \* btype: the warning carries napoleon's line counter AFTER the entry was consumed (docstring.py _consume_field .. lineno =
+             \* self._line_iter.counter): google - the line after the entry; numpy - a single returned value is written as :returns: / :rtype:
+             \* and located at the blank line before the section, two values are located two lines below their entries.  (first = the first
+             \* report, at = the second one, btype2 only.)  Environment fact, bound by conformance.
+             [] l.fmt = "google" /\ BType(l) -> [first |-> 18, at |-> 21]
+             [] l.fmt = "numpy"  /\ l.prob = "btype"  -> [first |-> 18, at |-> 18]
+             [] l.fmt = "numpy"  /\ l.prob = "btype2" -> [first |-> 23, at |-> 25]
              [] OTHER -> Mark(l)
 \* which line of the text it parses (0-based) the parser attaches to the problem
 \*   epytext : Token.startline of the paragraph / bullet / field, for errors, links and Field.lineno alike
@@ -227,6 +245,8 @@ Offset(l) ==
     \* restructuredtext.py:~262  ParseError(estr, node.line, is_fatal=False): the 1-based docutils line of the field stored where
     \* a 0-based one is expected: one line too low (deviation; pinned by pydoctor/test/epydoc/restructuredtext.doctest)
     [] l.prob = "consbad"                       -> ReportErrorsOffset(ParserFirst(l) + 1)
+    \* markup/_napoleon.py:84-85  ParseError(warn, lineno, is_fatal=False) for every (warn, lineno) of the converter, then reportErrors
+    [] BType(l)                                 -> ReportErrorsOffset(ParserFirst(l))
     [] l.prob \in {"xref", "ambig"} /\ l.fmt = "epytext"    -> ParserFirst(l)                               \* epytext.py to_node: lineno attr of the link = startline
     [] l.prob \in {"xref", "ambig"} /\ RstFamily(l)         -> ParserAt(l)                                  \* epydoc/docutils.py:108-146 get_lineno
     \* (vfield: reported against the attribute: docstring_lineno(attribute) = docstring line of the parent + line of the
@@ -246,10 +266,12 @@ SecondLine(l) == IF l.prob = "tfield" /\ l.pt THEN DocstringLine(l) + IvarOffset
                  ELSE IF l.prob = "consbad" THEN FirstLine(l)
                  \* ambig: both messages go through Documentable.report(.., 'resolve_identifier_xref', lineno): the same line
                  ELSE IF l.prob = "ambig" THEN (IF DocstringLine(l) # 0 THEN DocstringLine(l) ELSE ObjLine(l)) + Offset(l)
+                 \* btype2: the second entry's type is tokenised and reported like the first one
+                 ELSE IF l.prob = "btype2" THEN DocstringLine(l) + ReportErrorsOffset(ParserAt(l))
                  ELSE 0
 \* (ambig: the name is looked for among the members of every module of the system and among the modules themselves - two
 \* "ambiguous ref" messages - before "Cannot find link target")
-ExpectedCount(l) == IF l.prob \in {"consbad", "ambig"} THEN 3 ELSE IF (l.prob = "tfield" /\ l.pt) \/ l.inl THEN 2 ELSE 1
+ExpectedCount(l) == IF BType(l) THEN Rep(l) ELSE IF l.prob \in {"consbad", "ambig"} THEN 3 ELSE IF (l.prob = "tfield" /\ l.pt) \/ l.inl THEN 2 ELSE 1
 \* known finding (findings.d/C16.json  type-field-offset-added-twice)
 KF_TypeTwice(l, line) == l.prob = "tfield" /\ line = SecondLine(l) /\ line \notin Acceptable(l)
 \* The line does not depend on what was asked of the object before: the summary (made of copies of the first paragraph's
@@ -322,8 +344,9 @@ Emit == IF Source = "enum" THEN PrintT(ToJson(Rec(lay)))
 SameButK(a, b) == [a EXCEPT !.k = 0] = [b EXCEPT !.k = 0]
 ShiftBad == UNION {{<<g[i], g[j]>> : i, j \in 1..Len(g)} : g \in {Groups[x] : x \in 1..Len(Groups)}}
 BadPair(p) == /\ p[1] < p[2] /\ SameButK(Observed[p[1]].lay, Observed[p[2]].lay)
-              /\ Len(Observed[p[1]].lines) = 1 /\ Len(Observed[p[2]].lines) = 1
-              /\ Observed[p[2]].lines[1] - Observed[p[1]].lines[1] # Observed[p[2]].lay.k - Observed[p[1]].lay.k
+              /\ Len(Observed[p[1]].lines) \in {1, Rep(Observed[p[1]].lay)} /\ Len(Observed[p[2]].lines) = Len(Observed[p[1]].lines)
+              /\ \E i \in 1..Len(Observed[p[1]].lines) :
+                    Observed[p[2]].lines[i] - Observed[p[1]].lines[i] # Observed[p[2]].lay.k - Observed[p[1]].lay.k
 ShiftPost == IF Source = "file"
              THEN PrintT(ToJson([shift_bad |-> {<<Observed[p[1]].id, Observed[p[2]].id>> : p \in {q \in ShiftBad : BadPair(q)}},
                                  pairs |-> Cardinality({q \in ShiftBad : q[1] < q[2] /\ SameButK(Observed[q[1]].lay, Observed[q[2]].lay)})]))
